@@ -2,7 +2,11 @@
 
 package server
 
-import "fmt"
+import (
+	"fmt"
+
+	sadns "github.com/bokysan/socketace/v2/internal/streams/dns"
+)
 
 // VerifC18SocketState exposes what SocketServer.Startup decided: listener concrete type, listener network, secure flag.
 func VerifC18SocketState(st *SocketServer) (ltype string, network string, secure bool) {
@@ -37,4 +41,26 @@ func VerifC18DnsState(st *DnsServer) (ltype string, secure bool) {
 		ltype = fmt.Sprintf("%T", st.listener)
 	}
 	return ltype, st.secure
+}
+
+// VerifC18DnsListening reports what the DNS server started by Startup is really bound to: the network of the socket
+// miekg/dns opened ("tcp" / "udp" / "" when nothing is bound), its address, and the network name the server was
+// configured with (dns.Server.Net: udp, tcp, tcp-tls …).
+func VerifC18DnsListening(st *DnsServer) (network, address, configured string) {
+	l, ok := st.listener.(*sadns.ServerDnsListener)
+	if !ok || l == nil {
+		return "", "", ""
+	}
+	srv := sadns.VerifC18Server(l)
+	if srv == nil {
+		return "", "", ""
+	}
+	configured = srv.Net
+	if srv.Listener != nil {
+		return srv.Listener.Addr().Network(), srv.Listener.Addr().String(), configured
+	}
+	if srv.PacketConn != nil {
+		return srv.PacketConn.LocalAddr().Network(), srv.PacketConn.LocalAddr().String(), configured
+	}
+	return "", "", configured
 }
